@@ -277,15 +277,44 @@ var vpC03Extreme = []string{
 	"($a = this, toString($a))", "($a = this, '' + $a)", "($a = [this], len($a))", "($a = this, $b = [$a], join($b, ','))", "($a = this, lpad($a, 'x', 3))", "($a = this, $a == $a)", "($a = this, typeof $a.x)", "($a = this, $a.$a.$a === this)",
 	"($a = [1], $b = [$a, $a], toString($b))", "($a = this, startWith($a, 'map'))", "($a = this, includes([$a], 1))",
 	"floor(1e-99999999)", "round(1e-99999999)", "1e-99999999 % 7",
+	// (appended later; the three entries above keep their indices 42..44, which the known-findings file names)
+	"($e = wrap(this), toString($e))", "($e = wrap(this), '' + $e)", "($e = wrap([this]), join([$e], ','))", "toString(wrap(wrap(1)))",
+}
+
+// vpC03Chains: long left-nested chains of one logical operator in which only the last operand decides.
+func vpC03Chains() []string {
+	var out []string
+	for _, op := range []string{" ?? ", " || ", " && "} {
+		leaf := "u"
+		last := "'none'"
+		if op == " && " {
+			leaf, last = "1", "0"
+		}
+		if op == " || " {
+			leaf = "''"
+		}
+		s := leaf
+		for i := 0; i < 48; i++ {
+			s += op + leaf
+		}
+		out = append(out, s+op+last)
+	}
+	return out
+}
+
+type vpWrapped struct {
+	Kind    string
+	payload interface{}
 }
 
 // C03/extreme: every formula of the pool terminates with a value or an error.
 func VP_C03_extreme() {
 	var f string
+	all := append(append([]string{}, vpC03Extreme...), vpC03Chains()...)
 	if only := vpParam("ONLY"); only >= 0 {
-		f = vpC03Extreme[only] // (debugging aid: one formula)
+		f = all[only] // (debugging aid: one formula)
 	} else {
-		f = vpC03Extreme[vpChoice("f", len(vpC03Extreme))]
+		f = all[vpChoice("f", len(all))]
 	}
 	code, err := ParseSourceCode([]byte(f))
 	vpAssert("C03/extreme/parses", err == nil)
@@ -293,7 +322,7 @@ func VP_C03_extreme() {
 		return
 	}
 	r := NewRunner()
-	r.SetThis(map[string]interface{}{"x": 1})
+	r.SetThis(map[string]interface{}{"x": 1, "wrap": func(v interface{}) (interface{}, error) { return vpWrapped{Kind: "w", payload: v}, nil }})
 	v, rerr := r.Resolve(context.Background(), code.Expression)
 	vpObserve("extreme", f, rerr != nil)
 	vpAssert("C03/extreme/value-xor-error", rerr == nil || v == nil)
